@@ -6,7 +6,7 @@ import DiskfsModel.Model.Mbr
 import DiskfsModel.Model.MbrTable
 import DiskfsModel.Spec.GptValid
 import DiskfsModel.Proofs.GptCrashFlat
-import DiskfsModel.Proofs.GptGeomCrash
+import DiskfsModel.Proofs.GptGeomFast
 /-!
   Model driver for the engines gpt (C02), gptcrash (C09) and tblrobust (C15).
   Devices are sparse lists of extents (later extents win) or, for the crash
@@ -335,16 +335,18 @@ def classifyRecPT (oldParts newParts : Option (List Part)) (oldMbr : Option (Lis
 
 /-- the record-level readers of the ANY-GEOMETRY theorems (Proofs/GptGeomFlat.lean, GptGeomCrash.lean): the device viewed
     as the five regions of geometry `g` (`toDiskG`: the last array sector short when the array does not end on a sector
-    boundary) and read by `GptCrash.read` / `partRead` instantiated with the real decoders (`flatReaderG`) -/
+    boundary) and read by `GptCrash.read` / `partRead` instantiated with the real decoders (`flatReaderGF`: the reader of the theorems,
+    `flatReaderG`, with the array concatenated sector by sector instead of assembled bytewise; equal on every record view:
+    Proofs/GptGeomFast.lean read_fast_eq / partRead_fast_eq) -/
 def classifyRecG (oldParts newParts : Option (List Part)) (d : Dev) (g : GptCrash.Geo) : Char :=
-  match GptCrash.read (GptCrash.flatReaderG crc32 g) (GptCrash.toDiskG d g) with
+  match GptCrash.read (GptCrash.flatReaderGF crc32 g) (GptCrash.toDiskG d g) with
   | .ok ps fromBackup =>
     let c := if some ps == newParts then 'N' else if some ps == oldParts then 'O' else 'X'
     if fromBackup then c.toLower else c
   | .err => 'E'
 
 def classifyRecPTG (oldParts newParts : Option (List Part)) (oldMbr : Option (List Mbr.Part)) (d : Dev) (g : GptCrash.Geo) : Char :=
-  match GptCrash.partRead (GptCrash.flatReaderG crc32 g) GptCrash.mbrViewFlat (GptCrash.toDiskG d g) with
+  match GptCrash.partRead (GptCrash.flatReaderGF crc32 g) GptCrash.mbrViewFlat (GptCrash.toDiskG d g) with
   | .gpt ps => if some ps == newParts then 'N' else if some ps == oldParts then 'O' else 'X'
   | .mbr ps => if some ps == oldMbr then 'M' else 'Y'
   | .err => 'E'
